@@ -27,7 +27,7 @@ from types import SimpleNamespace
 from .. import tlc
 from ..core import MachineryError
 from ..c18_lib import DulExec, GitExec, Scheme, World, NAME_SCHEMES
-from ..c18_run import (FIELDS, diff_signature, execute, state_flags, to_trace, transition_classes)
+from ..c18_run import (FIELDS, cell_pattern, diff_signature, execute, path_flags, state_flags, to_trace, transition_classes)
 
 SPEC = "WorkTreeStatusMC.tla"
 CONTENT_SCHEMES = ("text", "shared", "crlf", "binary", "linkdir")
@@ -180,7 +180,7 @@ def run_chunk(task: dict):
             rest = beh["steps"][st["at"]:]
             todo.append({"steps": [dict(rest[0], act="Checkout")] + rest[1:], "scheme": beh["scheme"], "opts": beh["opts"]})
         res["n_beh"] += 1
-        res["n_steps"] += len(beh["steps"])
+        res["n_steps"] += len(run["events"]) + (1 if run["stop"] else 0)
         res["n_events"] += len(run["events"])
         for ev in run["events"]:
             res["acts"][ev["act"]] = res["acts"].get(ev["act"], 0) + 1
@@ -241,7 +241,7 @@ def run_chunk(task: dict):
                 if c == "RoundTrip":
                     site = "dulwich/index.py:update_working_tree" if k else "dulwich/index.py:build_index_from_tree|update_working_tree"
                     sig_tail += f" via={ev['act']}:{beh['opts'].get('checkout' if ev['act'] == 'Checkout' else 'switch')}"
-                elif c == "StageAllComplete":
+                elif c in ("StageAllComplete", "StageComplete"):
                     site = "dulwich/porcelain/__init__.py:add"
                 else:
                     site = SITE_STATUS.get(f, "dulwich/porcelain/__init__.py:status")
@@ -307,6 +307,10 @@ def run_chunk(task: dict):
                     clause = "ResetHard.Raises"
                 else:
                     ctxs = state_flags(prev["i"], prev["w"])
+                    if s.get("p"):
+                        pp = tuple(s["p"])
+                        fl = path_flags(pp, prev["i"], prev["w"])
+                        ctxs += "|" + cell_pattern((prev["h"].get(pp), prev["i"].get(pp), prev["w"].get(pp))) + (f" [{fl}]" if fl else "")
                     clause = f"{st['act']}.Raises"
                 res["findings"].append({"sig": f"{st['site']}|{clause}|{st['exc']}|{ctxs}", "what": f"{st['act']} {'/'.join(s.get('p') or ())} raised {st['exc']}: {st['msg']}",
                                         "meta": meta, "step": k, "clause": clause, "got": st["tb"]})
@@ -488,6 +492,7 @@ def random_behaviour(rng: random.Random, length: int):
                 cands.append(("DirToFile", p))
             cov = covered(p)
             if (p in w or p in i or any(above(p, q) for q in w)) and not any(above(r, p) for r in w) \
+                    and not (p in w and any(above(p, r) for r in i)) \
                     and all(all(r in cov for r in i if clash(r, q)) for q in cov if q in w):
                 cands.append(("Stage", p))
             if (p in h or p in i) and not any(above(p, q) for q in list(h) + list(i)) and not any(above(r, p) for r in list(h) + list(i)):
@@ -637,6 +642,7 @@ def run(ctx):
             for cfg, expect in (("WorkTreeStatus_neg_modeblind.cfg", "StageAllComplete"), ("WorkTreeStatus_neg_linkblind.cfg", "RoundTrip"))]
     f_pairs = tp.submit(pair_trees, ctx, ctx.pick("WorkTreeStatus_pairsq.cfg", "WorkTreeStatus_pairs.cfg"), "pairs (all ordered pairs of trees; Checkout, Switch, StageAll)")
     f_e4 = None if ctx.quick else tp.submit(tlc.run, SPEC, "WorkTreeStatus_edits4.cfg", workers=6, timeout=2400)
+    f_br = tp.submit(tlc.run, "WorkTreeStatusBridge.tla", ctx.pick("WorkTreeStatusBridge_q.cfg", "WorkTreeStatusBridge.cfg"), workers=2, timeout=1200)
     edit_behs = graph_behaviours(ctx, ctx.pick("WorkTreeStatus_edits2.cfg", "WorkTreeStatus_edits3.cfg"),
                                  ctx.pick("edits2 (3 trees, every action, 2 steps after checkout)", "edits3 (3 trees, every action, 3 steps after checkout)"),
                                  ctx.pick(None, 90000))
@@ -687,6 +693,7 @@ def run(ctx):
         results = pool.map(run_chunk, tasks, chunksize=1)
     if f_e4 is not None:
         ctx.add_tlc("edits4 (4 trees, every action, 4 steps after checkout; model level only)", f_e4.result())
+    ctx.add_tlc("bridge to TreeDiff (all pairs of maps: the tree identifies the map; staged classes = tree diff)", f_br.result())
     tp.shutdown()
     absorb(ctx, results, set())
     ctx.cov["rule"] = ("an execution = one behaviour (checkout, then edits / index operations / switches) carried out on a real repository; distinct = distinct "
